@@ -190,6 +190,48 @@ let show_std kind arg =
   | "utf8" -> "V=" ^ b01 (utf8_valid b)
   | k -> failwith ("bad std kind " ^ k)
 
+let num s = n_of_int (int_of_string s)
+
+let sock (f : string list) : sockaddr * string list =
+  match f with
+  | "4" :: ip :: port :: r -> (SV4 (mbytes ip, num port), r)
+  | "6" :: ip :: port :: flow :: scope :: r -> (SV6 (mbytes ip, num port, num flow, num scope), r)
+  | _ -> failwith "bad sock"
+
+let types_tbl = [| ALPN; Authority; CRC32C; NoOp; UniqueId; SSL; SSLVersion; SSLCommonName; SSLCipher;
+                   SSLSignatureAlgorithm; SSLKeyAlgorithm; NetworkNamespace |]
+
+let show_ctor kind args =
+  let f = split_on ',' args in
+  match kind, f with
+  | "ip4new", [sa; da; sp; dp] ->
+    let v = ip_new (mbytes sa) (mbytes da) (num sp) (num dp) in
+    Printf.sprintf "F=%s/%s/%s/%s V1=%s V2=%s N1=%s" (hexs v.source_address) (hexs v.destination_address)
+      (nstr v.source_port) (nstr v.destination_port) (v1_addr (v1_of_ip4 v)) (v2_addr (v2_of_ip4 v))
+      (v1_addr (new_tcp4 (mbytes sa) (mbytes da) (num sp) (num dp)))
+  | "ip6new", [sa; da; sp; dp] ->
+    let v = ip_new (mbytes sa) (mbytes da) (num sp) (num dp) in
+    Printf.sprintf "F=%s/%s/%s/%s V1=%s V2=%s N1=%s" (hexs v.source_address) (hexs v.destination_address)
+      (nstr v.source_port) (nstr v.destination_port) (v1_addr (v1_of_ip6 v)) (v2_addr (v2_of_ip6 v))
+      (v1_addr (new_tcp6 (mbytes sa) (mbytes da) (num sp) (num dp)))
+  | "unix", [s; d] ->
+    (match unix_new (mbytes s) (mbytes d) with
+     | AUnix (a, b) as u -> Printf.sprintf "F=%s/%s V2=%s" (hexs a) (hexs b) (v2_addr u)
+     | _ -> failwith "unix")
+  | "pair", _ ->
+    let (s, r) = sock f in
+    let (d, _) = sock r in
+    Printf.sprintf "V1=%s V2=%s" (v1_addr (v1_of_pair s d)) (v2_addr (v2_of_pair s d))
+  | "hdr1", t :: a ->
+    let h = header1_new (mbytes t) (addr1 a) in
+    Printf.sprintf "H=%s %s" (hexs h.text) (v1_addr h.addr)
+  | "tlv", [k; v] ->
+    let v = mbytes v in
+    Printf.sprintf "K=%s V=%s len=%d empty=%s from_eq=1 owned_eq=1" k (hexs v) (List.length v) (b01 (v = []))
+  | "type", [t] -> Printf.sprintf "C=%s" (nstr (type_code types_tbl.(int_of_string t)))
+  | "default1", _ -> "D=U"
+  | _ -> failwith ("bad ctor kind " ^ kind)
+
 (* ---- payload / builder syntax (same as the harness) ---- *)
 let types = [| ALPN; Authority; CRC32C; NoOp; UniqueId; SSL; SSLVersion; SSLCommonName; SSLCipher;
                SSLSignatureAlgorithm; SSLKeyAlgorithm; NetworkNamespace |]
@@ -316,6 +358,8 @@ let model_line (f : string list) : string =
      | Err _ -> "REJ")
   | ["fmt1"; a] -> show_fmt1 (addr1 (split_on ',' a))
   | ["std"; k; a] -> show_std k a
+  | ["ctor"; k; a] -> show_ctor k a
+  | ["ctor"; k] -> show_ctor k "-"
   | ["tlv"; x] -> show_tlvs (mbytes x)
   | ["htlv"; x] -> (match p2 (mbytes x) with Ok h -> show_tlvs (h_tlv_bytes h) | Err _ -> "REJ")
   | ["views2"; x] ->
